@@ -86,6 +86,7 @@ class Built:
         log = self.log
         names = [n for n, _ in argspecs]
         defaults = [self.expr(a) for _, a in argspecs]
+        defaults = [e.result if i % 2 else e for i, e in enumerate(defaults)]  # (the documented typing aid returns the expression itself)
         pid = f"ds{did}:{tag}"
 
         def body(**kw):
@@ -141,7 +142,9 @@ class Built:
         return obj
 
     def _const(self, s):
-        return labrea.Value(copy.deepcopy(s["v"]))
+        v = copy.deepcopy(s["v"])
+        # both spellings of a constant expression
+        return labrea.Value(v) if len(repr(v)) % 2 else labrea.types.Evaluatable.unit(v)
 
     def _opt(self, s):
         kw = {}
@@ -358,6 +361,9 @@ class Built:
                                                            + [inspect.Parameter("rest", inspect.Parameter.VAR_KEYWORD)])
                 if via["defaults"] in ("kwarg", "var_kwargs"):
                     kw["defaults"] = supplied
+                if via["defaults"] == "lifted":
+                    # the body is lifted by hand (decorator-with-defaults form) and the dataset wraps the resulting expression
+                    definition = labrea.application.FunctionApplication.lift(**supplied)(definition)
         factory = abstractdataset if d.get("abstract") else dataset
         if shared_factory is not None:
             factory = shared_factory(abstract=True) if d.get("abstract") else shared_factory
